@@ -3,57 +3,109 @@ import GlmVerif.Spec.Basic
 
 /-!
 From a kernel-checked family table (`Family.ok look = true`) to the statement the
-property makes: for every unit of the family, every output component and every
-environment, the generated model of the glm code evaluates to the textbook
-specification — in every ring-like semantics (`poly`), in every semantics at all
-(`syn`), in every field-like semantics given non-vanishing divisors (`frac`).
+property makes: for every unit of the family, every checked component and every
+environment, (the family's expression over) the generated model of the glm code
+evaluates to the textbook specification — in every ring-like semantics (`poly`),
+in every semantics at all (`syn`), in every field-like semantics given
+non-vanishing divisors (`frac`), and modulo stated hypotheses (`polyMod`, `fracMod`).
 -/
 namespace Glm
 
-theorem Unit.polyAgrees_sound' {R : Type} [CommRing R] {o : Ops R} (ho : RingLike o)
-    {u : Unit} {n : Nat} {spec : Nat → E}
-    (h : u.polyAgrees n spec = true) (j : Nat) (hj : j < n) (env : Nat → R) :
-    (u.out j).eval o env = (spec j).eval o env := by
-  simp only [Unit.polyAgrees, Bool.and_eq_true, List.all_eq_true, List.mem_range] at h
-  have := h.2 j hj
+theorem leafList_getD {ts : List Tree} {l : List E} (h : leafList ts = some l) (i : Nat) :
+    ts.getD i (.leaf (.lit 0 1)) = .leaf (l.getD i (.lit 0 1)) := by
+  induction ts generalizing l i with
+  | nil => simp [leafList] at h; subst h; simp
+  | cons t ts ih =>
+    cases t with
+    | leaf e =>
+      simp only [leafList, Option.map_eq_some_iff] at h
+      obtain ⟨l', hl', rfl⟩ := h
+      cases i with
+      | zero => simp
+      | succ i => simpa using ih hl' i
+    | branch c a b => simp [leafList] at h
+
+theorem Unit.out_of_leafOuts {u : Unit} {l : List E} (h : u.leafOuts = some l) (i : Nat) :
+    u.out i = .leaf (l.getD i (.lit 0 1)) := leafList_getD h i
+
+/-- what a passed table entry gives: the unit is decision-free and each checked component passes -/
+theorem Family.okAt_elim {f : Family} {look : String → List Nat → Unit} (h : f.ok look = true)
+    {ks : List Nat} (hks : ks ∈ f.keys) :
+    ∃ l, (look f.unit ks).leafOuts = some l ∧
+      (∀ i, (look f.unit ks).out i = .leaf (l.getD i (.lit 0 1))) ∧
+      ∀ j < f.nOut ks, f.compOK ks (fun i => l.getD i (.lit 0 1)) j = true := by
+  simp only [Family.ok, List.all_eq_true] at h
+  have := h ks hks
+  unfold Family.okAt at this
   split at this
-  · rename_i e he
-    rw [he]; exact polyEq_sound' ho this env
   · simp at this
+  · rename_i l hl
+    simp only [Bool.and_eq_true, List.all_eq_true, List.mem_range] at this
+    exact ⟨l, hl, Unit.out_of_leafOuts hl, this.2⟩
 
-theorem Unit.synAgrees_sound {α : Type} (o : Ops α) {u : Unit} {n : Nat} {spec : Nat → E}
-    (h : u.synAgrees n spec = true) (j : Nat) (hj : j < n) (env : Nat → α) :
-    (u.out j).eval o env = (spec j).eval o env := by
-  simp only [Unit.synAgrees, Bool.and_eq_true, List.all_eq_true, List.mem_range] at h
-  have := eq_of_beq (h.2 j hj)
-  rw [this]; rfl
+theorem Family.outE_eq {f : Family} {look : String → List Nat → Unit} (h : f.ok look = true)
+    {ks : List Nat} (hks : ks ∈ f.keys) :
+    (∀ i, (look f.unit ks).out i = .leaf ((look f.unit ks).outE i)) ∧
+    ∀ j < f.nOut ks, f.compOK ks (look f.unit ks).outE j = true := by
+  obtain ⟨l, _, h2, h3⟩ := Family.okAt_elim h hks
+  have : (look f.unit ks).outE = fun i => l.getD i (.lit 0 1) := by
+    funext i; simp [Unit.outE, h2 i]
+  rw [this]; exact ⟨h2, h3⟩
 
-theorem Family.poly_sound {R : Type} [CommRing R] {o : Ops R} (ho : RingLike o) {f : Family}
-    {look : String → List Nat → Unit} (h : f.ok look = true) (hk : f.kind = .poly)
+variable {f : Family} {look : String → List Nat → Unit}
+
+theorem Family.poly_sound {R : Type} [CommRing R] {o : Ops R} (ho : RingLike o)
+    (h : f.ok look = true) (hk : f.kind = .poly)
     {ks : List Nat} (hks : ks ∈ f.keys) {j : Nat} (hj : j < f.nOut ks) (env : Nat → R) :
-    ((look f.name ks).out j).eval o env = (f.spec ks j).eval o env := by
-  simp only [Family.ok, List.all_eq_true] at h
-  have := h ks hks
-  simp only [Family.okAt, hk] at this
-  exact Unit.polyAgrees_sound' ho this j hj env
+    (f.post ks (look f.unit ks).outE j).eval o env = (f.spec ks j).eval o env := by
+  have := (Family.outE_eq h hks).2 j hj
+  simp only [Family.compOK, hk] at this
+  exact polyEq_sound' ho this env
 
-theorem Family.syn_sound {α : Type} (o : Ops α) {f : Family}
-    {look : String → List Nat → Unit} (h : f.ok look = true) (hk : f.kind = .syn)
+theorem Family.syn_sound {α : Type} (o : Ops α)
+    (h : f.ok look = true) (hk : f.kind = .syn)
     {ks : List Nat} (hks : ks ∈ f.keys) {j : Nat} (hj : j < f.nOut ks) (env : Nat → α) :
-    ((look f.name ks).out j).eval o env = (f.spec ks j).eval o env := by
-  simp only [Family.ok, List.all_eq_true] at h
-  have := h ks hks
-  simp only [Family.okAt, hk] at this
-  exact Unit.synAgrees_sound o this j hj env
+    (f.post ks (look f.unit ks).outE j).eval o env = (f.spec ks j).eval o env := by
+  have := (Family.outE_eq h hks).2 j hj
+  simp only [Family.compOK, hk] at this
+  rw [eq_of_beq this]
 
-theorem Family.frac_sound {K : Type} [Field K] [CharZero K] {o : Ops K} (ho : FieldLike o) {f : Family}
-    {look : String → List Nat → Unit} (h : f.ok look = true) (hk : f.kind = .frac)
+theorem Family.frac_sound {K : Type} [Field K] [CharZero K] {o : Ops K} (ho : FieldLike o)
+    (h : f.ok look = true) (hk : f.kind = .frac)
     {ks : List Nat} (hks : ks ∈ f.keys) {j : Nat} (hj : j < f.nOut ks) (env : Nat → K)
     (hall : ∀ a ∈ f.allowed ks, a.divOK o env ∧ a.eval o env ≠ 0) :
-    ((look f.name ks).out j).eval o env = (f.spec ks j).eval o env := by
-  simp only [Family.ok, List.all_eq_true] at h
-  have := h ks hks
-  simp only [Family.okAt, hk] at this
-  exact Unit.fracAgrees_sound ho this j hj env hall
+    (f.post ks (look f.unit ks).outE j).divOK o env ∧
+    (f.post ks (look f.unit ks).outE j).eval o env = (f.spec ks j).eval o env := by
+  have := (Family.outE_eq h hks).2 j hj
+  simp only [Family.compOK, hk, Bool.and_eq_true] at this
+  have hd := E.divOK_of_allowed ho _ this.1.2 env hall
+  exact ⟨hd, fracEq_sound ho this.1.1 env hd (E.divOK_of_allowed ho _ this.2 env hall)⟩
+
+theorem Family.polyMod_sound {R : Type} [CommRing R] {o : Ops R} (ho : RingLike o)
+    (h : f.ok look = true) (hk : f.kind = .polyMod)
+    {ks : List Nat} (hks : ks ∈ f.keys) {j : Nat} (hj : j < f.nOut ks) (env : Nat → R)
+    (hh : ∀ p ∈ f.hyps ks, p.1.eval o env = p.2.eval o env) :
+    (f.post ks (look f.unit ks).outE j).eval o env = (f.spec ks j).eval o env := by
+  have := (Family.outE_eq h hks).2 j hj
+  simp only [Family.compOK, hk] at this
+  exact polyEqMod_sound ho this env hh
+
+theorem Family.fracMod_sound {K : Type} [Field K] [CharZero K] {o : Ops K} (ho : FieldLike o)
+    (h : f.ok look = true) (hk : f.kind = .fracMod)
+    {ks : List Nat} (hks : ks ∈ f.keys) {j : Nat} (hj : j < f.nOut ks) (env : Nat → K)
+    (hh : ∀ p ∈ f.hyps ks, p.1.eval o env = p.2.eval o env)
+    (hall : ∀ a ∈ f.allowed ks, a.divOK o env ∧ a.eval o env ≠ 0) :
+    (f.post ks (look f.unit ks).outE j).divOK o env ∧
+    (f.post ks (look f.unit ks).outE j).eval o env = (f.spec ks j).eval o env := by
+  have := (Family.outE_eq h hks).2 j hj
+  simp only [Family.compOK, hk, Bool.and_eq_true] at this
+  have hd := E.divOK_of_allowed ho _ this.1.2 env hall
+  exact ⟨hd, fracEqMod_sound ho this.1.1 env hh hd (E.divOK_of_allowed ho _ this.2 env hall)⟩
+
+/-- for families that compare the outputs themselves (`post` = identity) -/
+theorem Family.out_eval {α : Type} (o : Ops α) (h : f.ok look = true)
+    {ks : List Nat} (hks : ks ∈ f.keys) (i : Nat) (env : Nat → α) :
+    ((look f.unit ks).out i).eval o env = ((look f.unit ks).outE i).eval o env := by
+  rw [(Family.outE_eq h hks).1 i]; rfl
 
 end Glm
